@@ -26,7 +26,8 @@ LEVEL_TEXT = ("2-4 real send_message callers share one (read, write) pair on a v
               "answer permutations x notification interleavings x answer times around poll boundaries "
               "are executed and each message is attributed to the task whose receive() consumed it. "
               "Held/known-finding = on the schedules explored."
-              " Also a second connection whose callers use the same ids, and the per-request routing API of the stdio client on one and two connections.")
+              " Also a second connection whose callers use the same ids, and the per-request routing API of the stdio client on one and two connections."
+              ' Also callers whose explicit ids imitate the library-chosen ones, calls with the optional arguments, and an application re-seeding random before every call.')
 LEVEL_NOTE = ("Trusted: virtual-time loop, anyio memory streams' FIFO waiter order, the oracle. The loss of "
               "out-of-order answers (consumed and discarded by another waiter) is a recorded known finding; "
               "every other loss mechanism and any cross-talk is a violation.")
@@ -62,6 +63,9 @@ def gen_cases(ctx):
                         # callers that also pass the optional arguments (other branches of the wait loop)
                         yield dict(base, opts=["progress_cb"])
                         yield dict(base, opts=["progress_cb", "cancel_token"], opts_for="odd")
+                    if pname in ("spread", "same_instant") and ids == "auto":
+                        # the application resets the random module just before every call
+                        yield dict(base, reseed=True)
                     if pname in ("spread", "same_instant") and ids == "auto":
                         # some callers choose ids that look like the ones the library chooses for the others
                         yield dict(base, ids="lookalike")
@@ -137,6 +141,9 @@ def exec_case(ctx, case: Dict[str, Any]) -> None:
             if i > 0 and case.get("start_gap"):
                 await asyncio.sleep(case["start_gap"] * i)
             t0 = loop.time()
+            if case.get("reseed"):
+                import random as _random
+                _random.seed(20240607)
             kw: Dict[str, Any] = {}
             if case.get("opts") and (case.get("opts_for") != "odd" or i % 2):
                 if "progress_cb" in case["opts"]:
